@@ -25,19 +25,19 @@ type AbsTx struct {
 }
 
 type AbsScen struct {
-	Name    string  `json:"name"`
-	Regime  string  `json:"regime"` // "both": v1 and v2 valid; "v2": v2 only
-	V1OK    bool    `json:"v1ok"`
-	MaxPool int     `json:"maxpool"` // the pool is full when the pooled transactions weigh at least this much
-	MaxBlock int    `json:"maxblock"` // weight limit of one block (the assembler cuts the pool there)
-	N       int     `json:"n"`
-	Parent  []int   `json:"parent"`
-	Height  []int   `json:"height"`
-	Body    [][]int `json:"body"`
-	Creates [][]int `json:"creates"`
-	Spends  [][]int `json:"spends"`
-	NTx     int     `json:"ntx"`
-	Tx      []AbsTx `json:"tx"`
+	Name     string  `json:"name"`
+	Regime   string  `json:"regime"` // "both": v1 and v2 valid; "v2": v2 only
+	V1OK     bool    `json:"v1ok"`
+	MaxPool  int     `json:"maxpool"`  // the pool is full when the pooled transactions weigh at least this much
+	MaxBlock int     `json:"maxblock"` // weight limit of one block (the assembler cuts the pool there)
+	N        int     `json:"n"`
+	Parent   []int   `json:"parent"`
+	Height   []int   `json:"height"`
+	Body     [][]int `json:"body"`
+	Creates  [][]int `json:"creates"`
+	Spends   [][]int `json:"spends"`
+	NTx      int     `json:"ntx"`
+	Tx       []AbsTx `json:"tx"`
 	// only used by Leg M (candidate arguments); carried through untouched
 	Sets   []any   `json:"sets"`
 	RSets  [][]int `json:"rsets"`
@@ -99,9 +99,9 @@ func NewScen(regime string, seed int64, warmOps int) *Scen {
 	return s
 }
 
-func (s *Scen) Abs(treeID int) int  { return treeID - s.Warm }
-func (s *Scen) Node(abs int) *mat.Node { return s.Tree.Node(abs + s.Warm) }
-func (s *Scen) NumAbs() int         { return len(s.Tree.Nodes) - s.Warm }
+func (s *Scen) Abs(treeID int) int         { return treeID - s.Warm }
+func (s *Scen) Node(abs int) *mat.Node     { return s.Tree.Node(abs + s.Warm) }
+func (s *Scen) NumAbs() int                { return len(s.Tree.Nodes) - s.Warm }
 func (s *Scen) Ledger(abs int) *mat.Ledger { return s.Node(abs).L }
 
 func (s *Scen) leaf(id types.Hash256) int {
